@@ -28,7 +28,7 @@ JOB_TIMEOUT = {"quick": 900, "thorough": 7200}
 def jobs(tier, seed):
     out = []
     for su in okv.SUITES20:
-        n = 12 if tier == "quick" else 48
+        n = 12 if tier == "quick" else 120
         shards = 1 if tier == "quick" else 4
         for sh in range(shards):
             out.append({"suite": su, "seed": seed, "tier": tier, "cost": okv.suite_cost(su) * n / shards, "worlds": list(range(sh * n // shards, (sh + 1) * n // shards))})
